@@ -218,6 +218,23 @@ func (i *MessagingMiddleware) interceptDecryptionKeys(
 		return nil, errors.Wrapf(err, "failed to get current decryption trigger for eon %d", originalMsg.Eon)
 	}
 
+	// The signatures collected for the current trigger cover exactly the trigger's identity
+	// list. If the keys are for a different list (e.g. another keyper was triggered late for
+	// this slot, after the tx pointer had already advanced), attaching them would produce a
+	// message every peer rejects and would set the tx pointer to a wrong value, so drop it,
+	// like interceptDecryptionKeyShares does.
+	keyIdentityPreimages := []identitypreimage.IdentityPreimage{}
+	for _, key := range originalMsg.Keys {
+		keyIdentityPreimages = append(keyIdentityPreimages, identitypreimage.IdentityPreimage(key.IdentityPreimage))
+	}
+	if !bytes.Equal(computeIdentitiesHash(keyIdentityPreimages), trigger.IdentitiesHash) {
+		log.Warn().
+			Uint64("eon", originalMsg.Eon).
+			Hex("expectedIdentitiesHash", trigger.IdentitiesHash).
+			Msg("intercepted keys message with unexpected identities hash")
+		return nil, nil
+	}
+
 	keyperSet, err := obsKeyperDB.GetKeyperSetByKeyperConfigIndex(ctx, int64(originalMsg.Eon))
 	if err != nil {
 		return nil, errors.Wrapf(err, "failed to get keyper set from database for eon %d", originalMsg.Eon)
